@@ -530,7 +530,11 @@ func withPolicies(tier string, jobs []reg.Job, cacheOK func(reg.Job) bool) []reg
 		if tier == "thorough" {
 			out = append(out, clone(0, bound+up, j.Shards), clone(1, bound, 16), clone(2, bound+up, 8), clone(3, bound+up, 8), clone(4, bound, 8))
 		} else {
-			out = append(out, clone(0, bound, j.Shards), clone(1, bound-1, 8), clone(2, bound, 4), clone(3, bound, 4), clone(4, bound-1+up, 4))
+			pb := bound
+			if !ok && pb > 2 {
+				pb = 2 // without the cache the strict-priority policies cost as much as the base job: one deviation less
+			}
+			out = append(out, clone(0, bound, j.Shards), clone(1, bound-1, 8), clone(2, pb, 4), clone(3, pb, 4), clone(4, bound-1+up, 4))
 		}
 	}
 	return out
